@@ -1,5 +1,5 @@
 (* C19 — messages in one SML text are parsed independently (partial). *)
-From Secs Require Import Ast Fill Msg Lexer Parser SmlNumbers SmlProofs LexProofs ParseProofs LayoutProofs FrameProofs MsgRoundTrip.
+From Secs Require Import Ast Fill Msg Lexer Parser SmlNumbers SmlProofs LexProofs ParseProofs LayoutProofs FrameProofs MsgRoundTrip Converse.
 Open Scope Z_scope.
 
 (* variable names and ellipsis numbering are scoped to one message: parsing a
@@ -62,6 +62,21 @@ Theorem C19_concat_printed : forall alnum floats fl ms1 ms2, Forall (msg_good al
   r_warns (sml_parse alnum floats (msgs_text fl ms1 ++ msgs_text fl ms2)) = [].
 Proof. exact concat_printed. Qed.
 Print Assumptions C19_concat_printed.
+
+(* the same law for ARBITRARY accepted texts, in their canonical layout: what
+   two texts parse to, printed one after the other, parses to the messages of
+   the first text followed by the messages of the second, with no diagnostics
+   (uses the converse direction of C04: whatever the parser returns is in the
+   printable sub-grammar; stated for messages without float values, where no
+   oracle hypothesis is needed) *)
+Theorem C19_concat_accepted : forall alnum floats fl t1 t2, floats_wf floats ->
+  let m1 := r_msgs (sml_parse alnum floats t1) in
+  let m2 := r_msgs (sml_parse alnum floats t2) in
+  Forall (fun m => no_floats (m_item m)) m1 -> Forall (fun m => no_floats (m_item m)) m2 ->
+  let r := sml_parse alnum floats (msgs_text fl m1 ++ msgs_text fl m2) in
+  r_msgs r = m1 ++ m2 /\ r_errs r = [] /\ r_warns r = [].
+Proof. exact concat_of_accepted. Qed.
+Print Assumptions C19_concat_accepted.
 
 (* C19_concat_partial (arbitrary layouts): that the tokens of t1 ++ sep ++ t2 are the tokens of t1
    (without its EOF) followed by the tokens of t2 moved by |t1 ++ sep| — the
